@@ -18,4 +18,12 @@ except Exception as ex:  # import failure of the live package: fail closed
     text = '(* soupsieve could not be imported: %r *)\nDefinition RegexGen_untranslatable : unit := tt.\n' % (ex,)
     status['RegexGen'] = {'_import': repr(ex)}
 write_if_changed(os.path.join(gen, 'RegexGen.v'), text)
+try:
+    import t2_const  # noqa: E402
+    text, st = t2_const.generate()
+    status['ConstGen'] = st
+except Exception as ex:
+    text = '(* soupsieve could not be imported: %r *)\nDefinition ConstGen_untranslatable : unit := tt.\n' % (ex,)
+    status['ConstGen'] = {'_import': repr(ex)}
+write_if_changed(os.path.join(gen, 'ConstGen.v'), text)
 print(json.dumps(status))
